@@ -420,6 +420,7 @@ type vfBuilderCase struct {
 	Lanes  [][]string `json:"lanes"` // one lane = one goroutine's event sequence
 	Yields []int      `json:"yields"`
 	Procs  int        `json:"procs"`
+	Repeat int        `json:"repeat"` // concurrent unit: how often the scenario is run
 }
 
 func vfEventKind(ev Event) string {
@@ -570,8 +571,22 @@ func TestVerifC16BuilderEnum(t *testing.T) {
 	en.Done(complete)
 }
 
-// vfBuilderConcurrent: several goroutines add events with drawn yield points.
+// vfBuilderConcurrent runs the concurrent scenario Repeat times (schedules differ from run to run).
 func vfBuilderConcurrent(c vfBuilderCase) error {
+	n := c.Repeat
+	if n < 1 {
+		n = 1
+	}
+	for i := 0; i < n; i++ {
+		if err := vfBuilderConcurrentOnce(c); err != nil {
+			return err
+		}
+	}
+	return nil
+}
+
+// vfBuilderConcurrentOnce: several goroutines add events with drawn yield points.
+func vfBuilderConcurrentOnce(c vfBuilderCase) error {
 	if c.Procs > 0 {
 		defer runtime.GOMAXPROCS(runtime.GOMAXPROCS(c.Procs))
 	}
@@ -695,6 +710,25 @@ func TestVerifC16BuilderConcurrent(t *testing.T) {
 			}
 			for i := 0; i < 8; i++ {
 				c.Yields = append(c.Yields, rapid.IntRange(0, 3).Draw(t, "yield"))
+			}
+			if rapid.IntRange(0, 3).Draw(t, "storm") == 0 {
+				// a storm: one goroutine completes the trace while several others are busy adding data events; the
+				// window between recording the completing event and handing the trace over is what matters
+				c.Named, c.Procs, c.Yields, c.Lanes = true, rapid.SampledFrom([]int{4, 8, 16}).Draw(t, "stormProcs"), []int{0}, nil
+				for i, n := 0, rapid.IntRange(2, 5).Draw(t, "spammers"); i < n; i++ {
+					var lane []string
+					kind := rapid.SampledFrom([]string{"req-data", "resp-data"}).Draw(t, "spamKind")
+					for j, m := 0, rapid.IntRange(10, 60).Draw(t, "spamLen"); j < m; j++ {
+						lane = append(lane, kind)
+					}
+					c.Lanes = append(c.Lanes, lane)
+				}
+				var fin []string
+				for j, m := 0, rapid.IntRange(0, 20).Draw(t, "lead"); j < m; j++ {
+					fin = append(fin, "resp-data")
+				}
+				c.Lanes = append(c.Lanes, append(fin, rapid.SampledFrom([]string{"resp-end", "resp-end-err", "req-end-err"}).Draw(t, "finisher")))
+				c.Repeat = rapid.IntRange(10, 40).Draw(t, "repeat")
 			}
 			return c
 		},
